@@ -15,6 +15,45 @@ def _no_graphviz():
     graphviz.Digraph.render=render
   except Exception: pass
 
+class ZooTimeout(Exception):
+  """the real code did not finish a zoo job within the wall-clock budget (a hang is a failure of every property the job serves)"""
+JOB_BUDGET_S=int(os.environ.get('VERIF_ZOO_JOB_BUDGET','300'))
+if 'VERIF_ZOO_HANGFLAG' not in os.environ:        # parent process of the pools: one flag file per check run (children inherit the name)
+  _d=os.path.join(os.path.dirname(os.path.dirname(os.path.abspath(__file__))),'out'); os.makedirs(_d,exist_ok=True)
+  os.environ['VERIF_ZOO_HANGFLAG']=os.path.join(_d,f"zoo_hang_{os.getpid()}.flag")
+  try: os.unlink(os.environ['VERIF_ZOO_HANGFLAG'])
+  except OSError: pass
+  import atexit
+  atexit.register(lambda p=os.environ['VERIF_ZOO_HANGFLAG'],me=os.getpid(): (os.getpid()==me and os.path.exists(p) and os.unlink(p)))
+HANGFLAG=os.environ['VERIF_ZOO_HANGFLAG']
+def _jobname(a):
+  if isinstance(a,(tuple,list)):
+    for x in a:
+      if isinstance(x,str) and '[' in x and len(x)<120 and '\n' not in x: return x
+  return str(a)[:60]
+def budget(fn):
+  import functools, signal
+  @functools.wraps(fn)
+  def w(a):
+    try:
+      if sum(1 for _ in open(HANGFLAG))>=3:
+        return dict(check=fn.__name__,design=_jobname(a),failed=["not run: three earlier jobs of this check did not finish within the budget (the real code hangs)"],error=None,time=0.0)
+    except OSError: pass
+    def h(sig,frm):
+      try: open(HANGFLAG,'a').write('x\n')
+      except OSError: pass
+      signal.alarm(3)          # if a per-design handler swallows the exception and the next design hangs again, fire again
+      raise ZooTimeout(f"no result within {JOB_BUDGET_S} s")
+    try: signal.signal(signal.SIGALRM,h); signal.alarm(JOB_BUDGET_S)
+    except ValueError: return fn(a)          # not in the main thread of a worker: run without budget
+    try: r=fn(a)
+    except ZooTimeout as e: r=dict(check=fn.__name__,design=_jobname(a),failed=[],error=f"ZooTimeout: {e}",time=JOB_BUDGET_S)
+    finally: signal.alarm(0)
+    if isinstance(r,dict) and r.get('error') and 'ZooTimeout' in str(r['error']):
+      r['failed']=list(r.get('failed') or [])+[f"the real code did not finish this job within {JOB_BUDGET_S} s (hang): {r['error']}"]; r['error']=None
+    return r
+  return w
+
 def _job(a):
   check,fam,name,body,repo,seed=a
   if repo not in sys.path: sys.path.insert(0,repo)
@@ -71,7 +110,7 @@ def run_special(check,repo,seed,tier,procs=16):
     jobs=[('defect',exp,name,body,repo,seed) for name,body,exp in items]
     with Pool(min(procs,len(jobs))) as p: res=p.map(_job,jobs,chunksize=2)
     srcs={n:b for n,b,_ in items}; exps={n:e for n,b,e in items}
-    fails=[dict(args={'design':r['design']},failed=[m],custom=dict(kind='custom',module='zoo.replay',entry='replay_design',check='defect',design=r['design'],body=srcs[r['design']],expected=exps[r['design']],seed=seed)) for r in res for m in r['failed']]
+    fails=[dict(args={'design':r['design']},failed=[m],custom=dict(kind='custom',module='zoo.replay',entry='replay_design',check='defect',design=r['design'],body=srcs.get(r['design'],''),expected=exps[r['design']],seed=seed)) for r in res for m in r['failed']]
     errs=[f"{r['design']}: {r['error']}" for r in res if r['error']]
     bound=f"{CHECK_DOC['defect']}; family D of zoo/designs.py ({len(items)} designs incl. every statement order of each defect)"
     return [dict(key="zoo::defect[D]",ok=not errs,error='; '.join(errs[:3]) if errs else None,obligations=[],kind='bounded-standin',lines=None,ast_hash=None,info=None,
@@ -84,7 +123,7 @@ def run_special(check,repo,seed,tier,procs=16):
   with Pool(min(procs,len(jobs))) as p: res2=p.map(_job,jobs,chunksize=4)
   srcs={n:b for n,b,_ in items}
   fails=[dict(args={'design':r['design']},failed=[m],custom=dict(kind='custom',module='zoo.replay',entry='replay_nets',group=r['design'][2:-3],seed=seed)) for r in res for m in r['failed']]
-  fails+=[dict(args={'design':r['design']},failed=[m],custom=dict(kind='custom',module='zoo.replay',entry='replay_design',check='netvalues',design=r['design'],body=srcs[r['design']],seed=seed)) for r in res2 for m in r['failed']]
+  fails+=[dict(args={'design':r['design']},failed=[m],custom=dict(kind='custom',module='zoo.replay',entry='replay_design',check='netvalues',design=r['design'],body=srcs.get(r['design'],''),seed=seed)) for r in res2 for m in r['failed']]
   errs=[f"{r['design']}: {r['error']}" for r in res+res2 if r['error']]
   bound=f"{CHECK_DOC['nets']}; family E of zoo/designs.py: {len(groups)} connection multisets x permutations x side flips = {len(items)} designs"
   return [dict(key="zoo::nets[E]",ok=not errs,error='; '.join(errs[:3]) if errs else None,obligations=[],kind='bounded-standin',lines=None,ast_hash=None,info=None,
@@ -110,7 +149,7 @@ def run(checks,families,repo,seed,tier,procs=16):
     for r in rs:
       if r['error']: errs.append(f"{r['design']}: {r['error']}")
       for msg in r['failed']:
-        fails.append(dict(args={'design':r['design']},failed=[msg],custom=dict(kind='custom',module='zoo.replay',entry='replay_design',check=c,design=r['design'],body=srcs[r['design']],seed=seed)))
+        fails.append(dict(args={'design':r['design']},failed=[msg],custom=dict(kind='custom',module='zoo.replay',entry='replay_design',check=c,design=r['design'],body=srcs.get(r['design'],''),seed=seed)))
     out.append(dict(key=f"zoo::{c}[{'+'.join(families)}]",ok=not errs,error='; '.join(errs[:3]) if errs else None,obligations=[],kind='bounded-standin',
                     lines=None,ast_hash=None,info=None,time=sum(r['time'] for r in rs),is_standin=True,
                     standin=dict(evaluations=len(rs),failures=fails,bound=f"{CHECK_DOC[c]}; designs: families {families} of zoo/designs.py enumerated completely ({len(rs)} designs), 6 cycles of seeded random inputs",per_case={})))
@@ -254,3 +293,13 @@ def run_meth(repo,seed,tier,procs=16):
   bound=(f"{len(cs)} designs of four update_once blocks each calling one method of a shared component (all blocking = greenlet-wrapped, all non-blocking, mixed), ordered only by a chain of method constraints or only by a chain of explicit block constraints, in three declaration orders; default and simple schedulers (4 tie-break seeds), three ticks: every block runs exactly once per tick, in the constrained order")
   return [dict(key="zoo::method_constraints",ok=True,error=None,obligations=[],kind='bounded-standin',lines=None,ast_hash=None,info=None,time=sum(r['time'] for r in res),is_standin=True,
                standin=dict(evaluations=len(res),failures=fails,bound=bound,per_case={}))]
+
+# every job function runs under the wall-clock budget
+_job=budget(_job)
+_netjob=budget(_netjob)
+_memjob=budget(_memjob)
+_vcdjob=budget(_vcdjob)
+_tcjob=budget(_tcjob)
+_repljob=budget(_repljob)
+_clqjob=budget(_clqjob)
+_methjob=budget(_methjob)
